@@ -339,10 +339,15 @@ func (i *interpreter) index(idx value, n int) int64 {
 		tb := i.tb
 		w, signed := kindWidth(s.Kind)
 		var bad *Term
-		if signed {
+		switch {
+		case signed && (w >= 64 || uint64(n) <= mask(w-1)):
 			bad = tb.BOr(tb.Cmp(OpSlt, s.T, tb.Const(w, 0)), tb.Cmp(OpSle, tb.Const(w, uint64(n)), s.T))
-		} else {
+		case signed:
+			bad = tb.Cmp(OpSlt, s.T, tb.Const(w, 0)) // n exceeds the type's range: only negatives are out of range
+		case w >= 64 || uint64(n) <= mask(w):
 			bad = tb.Cmp(OpUle, tb.Const(w, uint64(n)), s.T)
+		default:
+			bad = tb.Bool(false) // every value of the index type is in range
 		}
 		if i.decide(bad, "index range") {
 			panic(targetRuntimeError(fmt.Sprintf("index out of range [symbolic] with length %d", n)))
